@@ -149,174 +149,7 @@ def _term(ev, expr, env, binding, children, f, depth=0):
     raise Unsupported('expression ' + u(expr))
 
 
-# ---- finite-shape evaluation: guards may call structural helper predicates ------------------------------------------------
-
-LEAVES = [('Zero',), ('One',), ('Symbol', 'a')]
-
-
-def _shapes():
-    """the trees of depth <= 2 over the leaves 0, 1, a symbol: enough to separate every structural predicate that looks one
-    level below a node (nullability, emptiness, 'is a star' ...)"""
-    out = list(LEAVES)
-    out += [('Iteration', x) for x in LEAVES]
-    out += [(k, x, y) for k in ('Sum', 'Concat') for x in LEAVES for y in LEAVES]
-    return out
-
-
-def _rename(sh, prefix):
-    """distinct letters per child, so that the letters behave as free variables of the identity"""
-    if sh[0] == 'Symbol':
-        return ('Symbol', prefix + sh[1])
-    if sh[0] in ('Zero', 'One'):
-        return sh
-    return (sh[0],) + tuple(_rename(x, prefix + str(i)) for i, x in enumerate(sh[1:]))
-
-
-def _ka_of(sh):
-    if sh[0] == 'Zero':
-        return ka.ZERO
-    if sh[0] == 'One':
-        return ka.ONE
-    if sh[0] == 'Symbol':
-        return ka.sym(sh[1])
-    if sh[0] == 'Iteration':
-        return ('*', _ka_of(sh[1]))
-    if sh[0] == 'Sum':
-        return ('+', _ka_of(sh[1]), _ka_of(sh[2]))
-    if sh[0] == 'Concat':
-        return ('.', _ka_of(sh[1]), _ka_of(sh[2]))
-    raise Unsupported('shape ' + str(sh[0]))
-
-
-FIELDS = {'Iteration': {'operand': 1}, 'Sum': {'left': 1, 'right': 2}, 'Concat': {'left': 1, 'right': 2}, 'Symbol': {'symbol': 1}}
-
-
-class _Concrete:
-    """runs a visit method (and the helpers / module-level predicates it calls) on concrete child shapes"""
-
-    def __init__(self, ctx, cls, children):
-        self.ctx = ctx
-        self.cls = cls
-        self.children = children
-        self.depth = 0
-
-    def call(self, f, args, is_method):
-        self.depth += 1
-        if self.depth > 40:
-            raise Unsupported('recursion too deep')
-        params = [p for p in f.params if not (is_method and p == 'self')]
-        if len(params) != len(args):
-            raise Unsupported('arity of ' + f.name)
-        env = dict(zip(params, args))
-        r = self.run(f, f.node.body, env)
-        self.depth -= 1
-        if r is None:
-            raise Unsupported(f.name + ' returns nothing')
-        return r[0]
-
-    def run(self, f, stmts, env):
-        for st in stmts:
-            if isinstance(st, ast.Expr) and isinstance(st.value, ast.Constant):
-                continue
-            if isinstance(st, (ast.Assign, ast.AnnAssign)):
-                tg = st.targets[0] if isinstance(st, ast.Assign) else st.target
-                if not isinstance(tg, ast.Name) or (isinstance(st, ast.Assign) and len(st.targets) != 1) or st.value is None:
-                    raise Unsupported('assignment ' + u(st))
-                env[tg.id] = self.ev(f, st.value, env)
-                continue
-            if isinstance(st, ast.If):
-                r = self.run(f, st.body if self.truth(self.ev(f, st.test, env)) else st.orelse, env)
-                if r is not None:
-                    return r
-                continue
-            if isinstance(st, ast.Return):
-                return (self.ev(f, st.value, env),)
-            if isinstance(st, ast.Pass):
-                continue
-            raise Unsupported('statement {} in {}'.format(type(st).__name__, f.name))
-        return None
-
-    @staticmethod
-    def truth(v):
-        if isinstance(v, tuple) and v and isinstance(v[0], str) and v[0] in ARITY:
-            return True         # a regular-expression object is truthy
-        return bool(v)
-
-    def ev(self, f, e, env):
-        if isinstance(e, ast.Constant):
-            return e.value
-        if isinstance(e, ast.Name):
-            if e.id in env:
-                return env[e.id]
-            if e.id in ARITY:
-                return ('class', e.id)
-            raise Unsupported('name ' + e.id)
-        if isinstance(e, ast.Tuple):
-            return tuple(self.ev(f, x, env) for x in e.elts)
-        if isinstance(e, ast.UnaryOp) and isinstance(e.op, ast.Not):
-            return not self.truth(self.ev(f, e.operand, env))
-        if isinstance(e, ast.BoolOp):
-            r = None
-            for v in e.values:
-                r = self.ev(f, v, env)
-                if isinstance(e.op, ast.And) and not self.truth(r):
-                    return r
-                if isinstance(e.op, ast.Or) and self.truth(r):
-                    return r
-            return r
-        if isinstance(e, ast.IfExp):
-            return self.ev(f, e.body if self.truth(self.ev(f, e.test, env)) else e.orelse, env)
-        if isinstance(e, ast.Compare) and len(e.ops) == 1 and isinstance(e.ops[0], (ast.Eq, ast.NotEq, ast.Is, ast.IsNot)):
-            a, b = self.ev(f, e.left, env), self.ev(f, e.comparators[0], env)
-            return (a == b) if isinstance(e.ops[0], (ast.Eq, ast.Is)) else (a != b)
-        if isinstance(e, ast.Attribute):
-            base = self.ev(f, e.value, env)
-            if isinstance(base, tuple) and base and base[0] in FIELDS and e.attr in FIELDS[base[0]]:
-                return base[FIELDS[base[0]][e.attr]]
-            raise Unsupported('attribute ' + u(e))
-        if isinstance(e, ast.Call):
-            # self.visit(ctx.expression(i))
-            if isinstance(e.func, ast.Attribute) and e.func.attr == 'visit' and u(e.func.value) == 'self' and len(e.args) == 1:
-                a = e.args[0]
-                if isinstance(a, ast.Call) and isinstance(a.func, ast.Attribute) and a.func.attr == 'expression':
-                    i = 0
-                    if a.args:
-                        if not (isinstance(a.args[0], ast.Constant) and isinstance(a.args[0].value, int)):
-                            raise Unsupported('child index ' + u(a))
-                        i = a.args[0].value
-                    if i not in self.children:
-                        raise Unsupported('child {}'.format(i))
-                    return self.children[i]
-                raise Unsupported('visit of ' + u(a))
-            if isinstance(e.func, ast.Attribute) and u(e.func.value) == 'self' and e.func.attr in self.cls.methods:
-                return self.call(self.cls.methods[e.func.attr], [self.ev(f, a, env) for a in e.args], True)
-            if isinstance(e.func, ast.Attribute) and e.func.attr == 'getText':
-                return 'sym'
-            if isinstance(e.func, ast.Name):
-                nm = e.func.id
-                if nm == 'isinstance' and len(e.args) == 2:
-                    v = self.ev(f, e.args[0], env)
-                    k = self.ev(f, e.args[1], env)
-                    ks = k if isinstance(k, tuple) and k and isinstance(k[0], tuple) else (k,)
-                    names = [x[1] for x in ks if isinstance(x, tuple) and x and x[0] == 'class']
-                    if len(names) != len(ks) or not (isinstance(v, tuple) and v and v[0] in ARITY):
-                        raise Unsupported('isinstance ' + u(e))
-                    return v[0] in names
-                target = env.get(nm)
-                if isinstance(target, tuple) and target and target[0] == 'class':
-                    nm = target[1]
-                if nm in ARITY and nm != 'Parens':
-                    args = [self.ev(f, a, env) for a in e.args]
-                    if nm == 'Symbol':
-                        return ('Symbol', 'sym')
-                    if len(args) != ARITY[nm]:
-                        raise Unsupported('arity of ' + nm)
-                    return (nm,) + tuple(args)
-                r = self.ctx.resolve_call(f, e)
-                if r is not None and r.kind == 'func' and r.target.cls is None:
-                    return self.call(r.target, [self.ev(f, a, env) for a in e.args], False)
-            raise Unsupported('call ' + u(e))
-        raise Unsupported('expression ' + u(e))
+from ..shapes import ShapeEval as _Concrete, shapes as _shapes, rename as _rename, ka_of as _ka_of, LEAVES, FIELDS  # noqa: E402,F401
 
 
 def _decide_concrete(ctx, cls, m, K):
